@@ -492,7 +492,9 @@ func (e *exec) xrPoint(label string, enumerate bool) {
 			probe := e.fork()
 			calls := probe.fetch(x, 0, sim.OK, label+" probe")
 			for k := 0; k < calls; k++ {
-				for _, out := range sim.EnumFaults {
+				// besides the enumerated outcomes a read may answer 404 (an informer cache that has not
+				// caught up, a revision restored a moment later)
+				for _, out := range append(append([]sim.Outcome{}, sim.EnumFaults...), sim.Missing) {
 					f := e.fork()
 					f.fetch(x, k, out, fmt.Sprintf("%s fault %s@%d", label, out, k))
 					f.fetch(x, 0, sim.OK, fmt.Sprintf("%s retry after %s@%d", label, out, k))
